@@ -113,7 +113,7 @@ def host_main(case_path, out_path):
             mod = __import__('pyworkers.' + kind, fromlist=['x'])
             cls = getattr(mod, kind.capitalize() + 'Worker')
         one_shot = {'coop': TG.coop_loop, 'swallow': TG.swallow_loop, 'sleep': TG.sleep_block, 'frozen': TG.frozen_c,
-                    'linger': TG.linger_ret}
+                    'linger': TG.linger_ret, 'unreb': TG.unreb_raise}
         if start == 'notrun':
             w = cls(target=None, **kw)
         elif pers and beh == 'slowres':
@@ -220,13 +220,15 @@ def host_main(case_path, out_path):
             rec = {'op': op, 'pre': pre, 'stopped': 'T' if stopped else 'F',
                    'after_true': 'T' if any(c_['op'] in WT_OPS and c_['ret'] == 'T' for c_ in calls) else 'F'}
             if box is None:
-                rec.update(ret='hung', durc='hung', fast='F', dur=-1.0,
+                rec.update(ret='hung', durc='hung', fast='F', dur=-1.0, thr_ret='alive',
                            os_ret='dead' if child_dead() else 'alive', selfsig='T' if len(sigs) > nsig else 'F')
                 rec['os_grace'] = rec['os_ret']
                 calls.append(rec)
                 hung = True
                 break
             dead_now = child_dead()
+            thr_now = (kind == 'remote' and start != 'notrun' and _thread_named(WNAME + ' (remote front)')) or \
+                      (kind == 'thread' and start != 'notrun' and _thread_named(WNAME))
             dur = box['dur']
             if pre == 'dead' and dur >= FAST and 'exc' not in box:
                 for _ in range(2):      # a dead worker must answer at once ANY number of times: re-measure before believing a stall
@@ -238,7 +240,8 @@ def host_main(case_path, out_path):
             r = box.get('ret')
             rec.update(ret=('raised:' + box['exc']) if 'exc' in box else ('T' if r is True else 'F' if r is False else 'none' if r is None else 'other:' + type(r).__name__),
                        durc='ok' if box['dur'] <= 3 * t + 2 else 'over', fast='T' if dur < FAST else 'F', dur=round(box['dur'], 3),
-                       os_ret='dead' if dead_now else 'alive', selfsig='T' if len(sigs) > nsig else 'F', t_ret=box['t_ret'])
+                       os_ret='dead' if dead_now else 'alive', selfsig='T' if len(sigs) > nsig else 'F', t_ret=box['t_ret'],
+                       thr_ret='alive' if thr_now else 'gone')
             calls.append(rec)
             if case.get('pace') == 'gap':
                 time.sleep(0.004)          # a few ms: the child dies, the frontend thread is still winding down
@@ -290,6 +293,8 @@ def _valid(kind, pers, beh, start):
         return False
     if beh == 'slowres' and (kind != 'remote' or pers != 'T'):
         return False
+    if beh == 'unreb' and pers != 'F':
+        return False
     if beh == 'idle' and pers != 'T':
         return False
     if start != 'run' and beh != 'coop':
@@ -303,7 +308,7 @@ def scenarios():
     out = []
     for kind in ('thread', 'process', 'remote'):
         for pers in ('F', 'T'):
-            for beh in ('coop', 'swallow', 'sleep', 'frozen', 'idle', 'linger', 'slowres'):
+            for beh in ('coop', 'swallow', 'sleep', 'frozen', 'idle', 'linger', 'slowres', 'unreb'):
                 for start in ('run', 'dead', 'notrun'):
                     if _valid(kind, pers, beh, start):
                         out.append(dict(kind=kind, pers=pers, beh=beh, start=start))
@@ -354,6 +359,15 @@ def gen_cases(tier, rng):
         add(S(kind, 'linger'), ['wait0', 'waitT', 'termT', 'termTF'])
         add(S(kind, 'linger'), ['alive', 'waitT', 'term0F', 'alive'])
         add(S(kind, 'linger'), ['waitT', 'stop', 'termTF', 'alive'])
+    # the target ends by itself with an outcome that cannot be rebuilt on the parent side, while wait() is receiving it
+    for kind in ('thread', 'process', 'remote'):
+        add(S(kind, 'unreb'), ['waitT', 'wait0', 'termT', 'alive'])
+        add(S(kind, 'unreb'), ['waitT', 'termT' if kind == 'thread' else 'termTF', 'wait0', 'waitT'])
+    # a gentle terminate that fails, then questions about the (live) worker
+    for kind in ('thread', 'process', 'remote'):
+        for beh in ('swallow', 'sleep'):
+            add(S(kind, beh), ['termT', 'alive', 'wait0', 'termT'])
+            add(S(kind, beh), ['term0', 'wait0', 'alive', 'waitT'])
     # the remote child is idle, the frontend thread is busy with a slow result: the worker is not dead when the child is
     add(S('remote', 'slowres', 'T'), ['termT', 'termT', 'alive', 'wait0'])
     add(S('remote', 'slowres', 'T'), ['termTF', 'termTF', 'wait0', 'alive'])
@@ -435,7 +449,7 @@ def _run_hosts(cases, scratch, par=12):
 def _record(case, out):
     calls = []
     for c in out['calls']:
-        calls.append({k: c[k] for k in ('op', 'ret', 'durc', 'fast', 'pre', 'os_ret', 'os_grace', 'selfsig', 'after_true')})
+        calls.append({k: c[k] for k in ('op', 'ret', 'durc', 'fast', 'pre', 'os_ret', 'os_grace', 'selfsig', 'after_true', 'thr_ret')})
     return {'id': case['id'], 'scn': {k: case[k] for k in ('kind', 'pers', 'beh', 'start', 'ops', 'pace')},
             'obs': {'calls': calls}}
 
@@ -488,6 +502,10 @@ def run(prop, tier, replay=None):
     for nm, fx, sub in (('pre_all', 'FixNone', 'FreeProcess'), ('pre_poll', 'FixNoPoll', 'FreeProcess'), ('pre_kill', 'FixNoKill', 'FreeRemote'),
                         ('pre_self', 'FixNoSelf', 'FreeRemote')):
         jobs[nm] = dict(cfg=_mc_cfg(MaxOps='2', Fix=fx, Cases=sub), workers=2, label='pre-fix variant %s on %s (must be rejected)' % (fx, sub), expect_error=True)
+    jobs['whatif_cachedeadonfalse'] = dict(cfg=_mc_cfg(MaxOps='2', CacheDeadOnFalse='TRUE', Cases='FreeRemote').replace('PROPERTY Live_Returns', ''), workers=2, expect_error=True,
+                                           label='what-if: RemoteWorker.terminate caches _dead when it answers False (must be rejected)')
+    jobs['whatif_rebuildraises'] = dict(cfg=_mc_cfg(MaxOps='2', RebuildRaises='TRUE', Cases='FreeProcess').replace('PROPERTY Live_Returns', ''), workers=2, expect_error=True,
+                                        label='what-if: ProcessWorker.wait lets the error of rebuilding the final message escape (must be rejected)')
     jobs['whatif_remdeadmeansdead'] = dict(cfg=_mc_cfg(MaxOps='3', RemDeadMeansDead='TRUE', Cases='FreeRemote').replace('PROPERTY Live_Returns', ''), workers=2, expect_error=True,
                                            label='what-if: RemoteWorker.terminate answers True once the remote child is known to be gone (must be rejected)')
     jobs['whatif_reportmeansdead'] = dict(cfg=_mc_cfg(MaxOps='2', ReportMeansDead='TRUE', Cases='FreeProcess'), workers=2, expect_error=True,
@@ -520,7 +538,9 @@ def run(prop, tier, replay=None):
             if r.error or not r.completed:
                 raise MachineryError('%s: Lifecycle.tla fails: %s\n%s\n%s' % (nm, r.error, '\n'.join(r.trace[:80]), r.stdout[-1500:]))
             ev.add_tlc(j['label'], r, role='model')
-    if wit['whatif_remdeadmeansdead'] != 'invariant:Inv_Stable':
+    if wit['whatif_cachedeadonfalse'] != 'invariant:Inv_Truthful' or wit['whatif_rebuildraises'] != 'invariant:Inv_Returns':
+        raise MachineryError('what-if variants are rejected for unexpected reasons: %r' % wit)
+    if wit['whatif_remdeadmeansdead'] not in ('invariant:Inv_Stable', 'invariant:Inv_Truthful'):
         raise MachineryError('what-if RemDeadMeansDead is rejected for an unexpected reason: %r' % wit['whatif_remdeadmeansdead'])
     if wit['whatif_reportmeansdead'] != 'invariant:Inv_Truthful':
         raise MachineryError('what-if ReportMeansDead is rejected for an unexpected reason: %r' % wit['whatif_reportmeansdead'])
@@ -566,7 +586,7 @@ def run(prop, tier, replay=None):
         if c.get('stopped') == 'T':
             child += '+stop'
         effect = ('selfsig' if c['selfsig'] == 'T' else c['ret'] if c['ret'] in ('hung',) else
-                  'ret=%s,os=%s,grace=%s,fast=%s,durc=%s' % (c['ret'], c['os_ret'], c['os_grace'], c['fast'], c['durc']))
+                  'ret=%s,os=%s,thr=%s,grace=%s,fast=%s,durc=%s' % (c['ret'], c['os_ret'], c.get('thr_ret'), c['os_grace'], c['fast'], c['durc']))
         sig = 'C04|%s|kind=%s|pers=%s|child=%s|pre=%s|op=%s|%s' % (name, case['kind'], case['pers'], child, c['pre'], c['op'], effect)
         what = ('%s fails: %s%s worker, child %s: call #%s %s of history %s (%s) -> ret=%s dur=%ss child %s at return / %s after grace%s'
                 % (name, 'persistent ' if case['pers'] == 'T' else '', case['kind'], child, k, c['op'], case['ops'], case['pace'], c['ret'],
